@@ -22,7 +22,9 @@ from vlib import snapshot as sn
 
 PROPERTY = "C19"
 ASSUMPTIONS = [
-    "'unchanged' is judged through the public accessors: iteration and indexing of the clauses, number_of_variables(), all_variable_labels(), header items in order; for graphs vertex count, edge list, neighbour lists and name (networkx: nodes, edges, adjacency order, node/edge/graph attributes)",
+    "'unchanged' is judged through the public accessors: iteration and indexing of the clauses, number_of_variables(), all_variable_labels(), header items in order; for graphs vertex count, edge list, neighbour lists and name (networkx: class, node order, node/edge/graph attribute dictionaries key by key with the type of every value, edge order and keys, adjacency order, frozen flag)",
+    "any networkx.Graph instance is a legal graph argument where the documentation says networkx.Graph (subclasses, multigraphs, frozen graphs included: the tree accepts them); the 'bipartite' attribute may be 0/1, '0'/'1' or False/True (all pass the documented membership test); planted assignments may be any container supporting `literal in assignment` (the documentation says 'iterable' of 'sequences of literals')",
+    "nested values reachable from a networkx copy returned by normalize_networkx_labels / to_networkx are shared by networkx's own shallow copy semantics: only top-level changes of the result are required not to reach the argument",
     "the description of the result must contain the original text (Shuffle appends ' (reshuffled)'); every other earlier header entry keeps key, value and position",
     "pre-existing 'transformation i' entries are generated gap-free (1..p), as every chain of the tree produces them",
     "AndSubstitution is not exported by the package (and not reachable from the command line): not exercised",
@@ -203,6 +205,8 @@ def apply_step(F, t, watch):
         L = F.number_of_variables()
         g = {'L': L, 'R': t['R'], 'edges': sn.derived_left_regular(t['gseed'], L, t['R'], t['deg']),
              'as': t.get('as', 'cnfgen'), 'labels': t.get('labels', 'int'), 'name': 'the compression graph'}
+        if t.get('nx') is not None:
+            g['nx'] = t['nx']
         B = sn.build_graph('bipartite', g)
         watch.append(('bipartite graph of the compression', B, sn.snap_graph(B), 'graph'))
         return cnfgen.VariableCompression(F, B, function='xor' if name == 'xorcomp' else 'maj')
@@ -320,6 +324,8 @@ def run_transform(case):
                 labels.append('shuffle-{}-{}'.format(key, t[key][0]))
         if t['name'] in COMP:
             labels.append('comp-' + t.get('as', 'cnfgen'))
+            if t.get('as') == 'networkx' and t.get('nx') is not None:
+                labels.append('comp-nx-sides-' + t['nx'].get('sides', 'int'))
     if applied == 0:
         return Outcome(labels=labels + ['nothing-applied'], nontrivial=False)
     # -- whole chain: original entries, then pre+1 .. pre+applied
@@ -408,6 +414,24 @@ def shuffle_step(draw):
     return {'name': 'shuffle', 'flips': one(), 'vars': one(), 'clauses': one()}
 
 
+_NX_DRAW = {dim: st.sampled_from(values) for dim, values in sn.NX_DIMENSIONS}
+_TWO_IN_3 = st.sampled_from([True, True, False])
+
+
+def draw_nx(draw):
+    """the foreign-object parameters of a networkx argument (vlib/snapshot.py: nx_foreign)"""
+    spec = {dim: draw(_NX_DRAW[dim]) for dim, _ in sn.NX_DIMENSIONS}
+    spec['oseed'] = draw(_I09)
+    return spec
+
+
+def _foreign_step(draw, t):
+    if t['as'] == 'networkx' and draw(_TWO_IN_3):
+        t['nx'] = draw_nx(draw)
+        t['labels'] = t['nx']['labels']
+    return t
+
+
 @st.composite
 def any_step(draw, cheap=False):
     name = draw(_T_CHEAP if cheap else _T_NAMES)
@@ -420,15 +444,15 @@ def any_step(draw, cheap=False):
     if name == 'lift1':
         return {'name': 'lift', 'k': 1}
     if name == 'comp1':
-        return {'name': draw(st.sampled_from(COMP)), 'R': draw(st.integers(1, 4)), 'deg': draw(st.integers(0, 1)),
-                'gseed': draw(_SEED), 'as': draw(_AS), 'labels': draw(_STYLE)}
+        return _foreign_step(draw, {'name': draw(st.sampled_from(COMP)), 'R': draw(st.integers(1, 4)), 'deg': draw(st.integers(0, 1)),
+                                    'gseed': draw(_SEED), 'as': draw(_AS), 'labels': draw(_STYLE)})
     if name == 'shuffle':
         return draw(shuffle_step())
     if name in ('flip', 'ite'):
         return {'name': name}
     if name in COMP:
-        return {'name': name, 'R': draw(st.integers(1, 5)), 'deg': draw(st.integers(0, 3)), 'gseed': draw(_SEED),
-                'as': draw(_AS), 'labels': draw(_STYLE)}
+        return _foreign_step(draw, {'name': name, 'R': draw(st.integers(1, 5)), 'deg': draw(st.integers(0, 3)), 'gseed': draw(_SEED),
+                                    'as': draw(_AS), 'labels': draw(_STYLE)})
     t = {'name': name, 'k': draw(_K13)}
     if name in LINEAR:
         t['K'] = draw(st.integers(0, t['k'] + 1))
@@ -464,7 +488,8 @@ def strat_transform(draw):
 TRANSFORM_LABELS = (ARITY + list(LINEAR) + ['ite', 'lift', 'flip', 'shuffle'] + COMP +
                     ['arity1', 'arity2', 'arity3', 'chain1', 'chain2', 'chain3', 'chain4', 'chain>=3', 'preexisting-entry',
                      'custom-header', 'named-groups', 'no-description', 'comp-cnfgen', 'comp-networkx', 'hand', 'php', 'tseitin'] +
-                    ['shuffle-{}-{}'.format(a, b) for a in ('flips', 'vars', 'clauses') for b in ('fixed', 'shuffle', 'list', 'tuple')])
+                    ['shuffle-{}-{}'.format(a, b) for a in ('flips', 'vars', 'clauses') for b in ('fixed', 'shuffle', 'list', 'tuple')] +
+                    ['comp-nx-sides-' + x for x in sn.NX_SIDES])
 
 
 # ---------------------------------------------------------------------------
@@ -660,7 +685,22 @@ GRAPH_CALLS = {
     'new_bipartite_edges': (['bipartite'], lambda g, p, c: _use_group(c().new_bipartite_edges(g[0]))),
     'new_digraph_edges': (['digraph'], lambda g, p, c: _use_group(c().new_digraph_edges(g[0], sortby='pred' if p['flag'] else 'succ'))),
     'new_sparse_mapping': (['bipartite'], lambda g, p, c: _sparse_mapping(c(), g[0], p)),
+    # graph builders: networkx object -> cnfgen object (and back)
+    'Graph.from_networkx': (['simple'], lambda g, p, c: _gcls('Graph').from_networkx(g[0])),
+    'Graph.normalize': (['simple'], lambda g, p, c: _gcls('Graph').normalize(g[0], 'G')),
+    'DirectedGraph.from_networkx': (['digraph'], lambda g, p, c: _gcls('DirectedGraph').from_networkx(g[0])),
+    'DirectedGraph.normalize': (['digraph'], lambda g, p, c: _gcls('DirectedGraph').normalize(g[0], 'D')),
+    'BipartiteGraph.from_networkx': (['bipartite'], lambda g, p, c: _gcls('BipartiteGraph').from_networkx(g[0])),
+    'BipartiteGraph.normalize': (['bipartite'], lambda g, p, c: _gcls('BipartiteGraph').normalize(g[0], 'B')),
+    'normalize_networkx_labels': (['simple'], lambda g, p, c: _gcls('normalize_networkx_labels')(g[0])),
+    'normalize_networkx_labels/digraph': (['digraph'], lambda g, p, c: _gcls('normalize_networkx_labels')(g[0])),
+    'Graph.to_networkx': (['simple'], lambda g, p, c: g[0].to_networkx()),
+    'DirectedGraph.to_networkx': (['digraph'], lambda g, p, c: g[0].to_networkx()),
+    'BipartiteGraph.to_networkx': (['bipartite'], lambda g, p, c: g[0].to_networkx()),
 }
+# calls that return a graph object: the result is changed afterwards and the argument looked at again
+BUILDER_CALLS = {n for n in GRAPH_CALLS if '.' in n or n.startswith('normalize_')}
+NX_ONLY = {n for n in BUILDER_CALLS if 'from_networkx' in n or n.startswith('normalize_')}
 # catalogue (command line) name -> library functions that take its graph
 CATALOGUE_TO_CALLS = {
     'php': ['GraphPigeonholePrinciple'], 'matching': ['PerfectMatchingPrinciple'], 'tseitin': ['TseitinFormula'],
@@ -671,14 +711,51 @@ CATALOGUE_TO_CALLS = {
     'stone': ['StoneFormula', 'SparseStoneFormula'],
 }
 # documented for cnfgen graph objects only
-CNFGEN_ONLY = {'new_graph_edges', 'new_bipartite_edges', 'new_digraph_edges', 'new_sparse_mapping'}
+CNFGEN_ONLY = {'new_graph_edges', 'new_bipartite_edges', 'new_digraph_edges', 'new_sparse_mapping',
+               'Graph.to_networkx', 'DirectedGraph.to_networkx', 'BipartiteGraph.to_networkx'}
 GRAPH_PARAM_NAMES = {'G', 'G1', 'G2', 'H', 'B', 'D', 'graph', 'digraph'}
+
+
+def _gcls(name):
+    import cnfgen.graphs
+    return getattr(cnfgen.graphs, name)
+
+
+def _change_result(R):
+    """what a caller may do with a graph object he got back (top level only: a networkx copy shares attribute values)"""
+    import networkx
+    from cnfgen.graphs import Graph, DirectedGraph, BipartiteGraph
+    if isinstance(R, networkx.Graph):
+        R.graph['name'] = 'renamed afterwards'
+        R.graph['harness'] = 1
+        for u in list(R.nodes()):
+            R.nodes[u]['bipartite'] = 'changed afterwards'
+            R.nodes[u]['harness'] = 1
+        for e in list(R.edges(keys=True) if R.is_multigraph() else R.edges()):
+            R.edges[e]['harness'] = 1
+        if not networkx.is_frozen(R):
+            R.add_node('harness node')
+            R.remove_edges_from(list(R.edges())[:1])
+        return
+    R.name = 'renamed afterwards'
+    n = R.number_of_vertices()
+    if isinstance(R, BipartiteGraph):
+        for u in range(1, R.left_order() + 1):
+            for v in range(1, R.right_order() + 1):
+                R.add_edge(u, v)
+    elif isinstance(R, Graph):
+        R.update_vertex_number(n + 1)
+        for u in range(1, n + 1):
+            R.add_edge(u, n + 1)
+    elif isinstance(R, DirectedGraph):
+        for u in range(1, n):
+            R.add_edge(u, n)
 
 
 def _compress(B, p):
     import cnfgen
     from cnfgen.graphs import BipartiteGraph
-    L = B.left_order() if isinstance(B, BipartiteGraph) else sum(1 for _, d in B.nodes(data=True) if d['bipartite'] == 0)
+    L = B.left_order() if isinstance(B, BipartiteGraph) else sn.nx_left_order(B)
     F = cnfgen.CNF()
     F.update_variable_number(L)
     for u in range(1, L + 1):
@@ -746,21 +823,39 @@ def run_graphs(case):
     labels = [name, case['cls']]
     rejected = False
     random.seed(case['rseed'])
+    result = None
     try:
-        caller(graphs, case['p'], _cls(case['cls']))
+        result = caller(graphs, case['p'], _cls(case['cls']))
     except ValueError:
         rejected = True                          # parameters outside the family's domain: the graph must still be intact
-    for i, (G, S) in enumerate(zip(graphs, before)):
-        now = sn.snap_graph(G)
-        if now != S:
-            raise Violation("{}({} as {} object{}) {}modified its graph argument {}: {}".format(
-                name, case['graphs'][i], case['graphs'][i]['as'], '' if case['graphs'][i]['as'] == 'cnfgen' else
-                ' with ' + case['graphs'][i].get('labels', 'int') + ' labels', 'raised ValueError and ' if rejected else '',
-                i + 1, "; ".join(sn.differences(S, now))))
+
+    def compare(then):
+        for i, (G, S) in enumerate(zip(graphs, before)):
+            now = sn.snap_graph(G)
+            if now != S:
+                raise Violation("{}({} as {} object{}) {}modified its graph argument {}{}: {}".format(
+                    name, case['graphs'][i], case['graphs'][i]['as'], '' if case['graphs'][i]['as'] == 'cnfgen' else
+                    ' with ' + case['graphs'][i].get('labels', 'int') + ' labels', 'raised ValueError and ' if rejected else '',
+                    i + 1, then, "; ".join(sn.differences(S, now))))
+    compare('')
+    if name in BUILDER_CALLS and result is not None:
+        if any(result is G for G in graphs):
+            if not (name.endswith('.normalize') and case['graphs'][0]['as'] == 'cnfgen'):
+                raise Violation("{} returned its argument instead of a new graph object".format(name))
+            labels.append('returned-as-is')          # documented: a cnfgen object is handed back by normalize
+        else:
+            _change_result(result)
+            compare(' (seen when the returned graph was changed afterwards)')
+            labels.append('result-changed')
     for g in case['graphs']:
         labels.append(g['as'])
         if g['as'] == 'networkx':
             labels.append('nx-' + g.get('labels', 'int'))
+            if g.get('nx') is not None:
+                labels.append('nx-foreign')
+                for dim, _ in sn.NX_DIMENSIONS:
+                    if dim != 'labels' and (dim != 'sides' or 'L' in g):
+                        labels.append('nx-{}-{}'.format(dim, g['nx'][dim]))
     if rejected:
         labels.append('rejected')
     size = sum(len(g['edges']) for g in case['graphs'])
@@ -802,9 +897,12 @@ def strat_graphs(draw):
             if name == 'SparseStoneFormula' and not draw(_ONE_IN_10):
                 g = dict(g, L=graphs[0]['n'], edges=[e for e in g['edges'] if e[0] <= graphs[0]['n']])
         g = dict(g)
-        g['as'] = 'cnfgen' if name in CNFGEN_ONLY else draw(_AS)
+        g['as'] = 'cnfgen' if name in CNFGEN_ONLY else ('networkx' if name in NX_ONLY else draw(_AS))
         if g['as'] == 'networkx':
             g['labels'] = draw(_STYLE)
+            if draw(_TWO_IN_3):
+                g['nx'] = draw_nx(draw)
+                g['labels'] = g['nx']['labels']
         else:
             g['name'] = draw(_GNAME)
         graphs.append(g)
@@ -828,7 +926,7 @@ def enum_graphs(tier):
         kinds = GRAPH_CALLS[name][0]
         for which in (0, 1):
             for how in [('cnfgen', None)] + [('networkx', s) for s in sn.LABEL_STYLES]:
-                if how[0] == 'networkx' and name in CNFGEN_ONLY:
+                if (how[0] == 'networkx' and name in CNFGEN_ONLY) or (how[0] == 'cnfgen' and name in NX_ONLY):
                     continue
                 graphs = []
                 for i, k in enumerate(kinds):
@@ -840,6 +938,29 @@ def enum_graphs(tier):
                 for cls in ('CNF', 'OPB'):
                     yield {'call': name, 'graphs': graphs, 'p': {'k': 2, 's': 2, 'flag': which == 0, 'flag2': which == 1},
                            'cls': cls, 'same': False, 'rseed': 1}
+    # the foreign-object sweep: from two base objects, every value of every dimension of vlib/snapshot.py: nx_foreign
+    bases = [dict(sn.NX_DEFAULT),
+             {'sides': 'str', 'order': 'shuffled', 'cls': 'plain', 'labels': 'str', 'extra': 'deep', 'gname': 'absent', 'oseed': 3}]
+    for name in sorted(GRAPH_CALLS):
+        if name in CNFGEN_ONLY:
+            continue
+        kinds = GRAPH_CALLS[name][0]
+        for which in (0, 1):
+            specs = [dict(bases[which])]
+            for dim, values in sn.NX_DIMENSIONS:
+                if dim == 'sides' and 'bipartite' not in kinds:
+                    continue
+                specs += [dict(bases[which], **{dim: v}) for v in values if v != bases[which][dim]]
+            for j, spec in enumerate(specs):
+                graphs = []
+                for i, k in enumerate(kinds):
+                    g = dict(fixed[k][(which + i) % 2])
+                    g['as'] = 'networkx'
+                    g['nx'] = dict(spec, oseed=spec['oseed'] + i)
+                    g['labels'] = spec['labels']
+                    graphs.append(g)
+                yield {'call': name, 'graphs': graphs, 'p': {'k': 2, 's': 2, 'flag': which == 0, 'flag2': j % 2 == 1},
+                       'cls': ('CNF', 'OPB')[(j + which) % 2], 'same': False, 'rseed': 1}
 
 
 # ---------------------------------------------------------------------------
@@ -1021,7 +1142,27 @@ def strat_builders(draw):
 # ---------------------------------------------------------------------------
 # other list arguments: charges, patterns, planted assignments, explicit shuffles, ranges
 
-LIST_WHATS = ['charges', 'pattern', 'planted-kcnf', 'planted-kxor', 'shuffle', 'ranges', 'vdw']
+LIST_WHATS = ['charges', 'pattern', 'planted-kcnf', 'planted-kxor', 'shuffle', 'ranges', 'vdw', 'edges', 'opb-constraints']
+CHARGE_VALUES = {'int': lambda c: c, 'bool': lambda c: bool(c), 'float': lambda c: float(c), 'big': lambda c: c * 10 ** 20,
+                 'mixed': lambda c: (c, bool(c), float(c), -c)[c % 4]}
+INNER_KINDS = ('list', 'tuple', 'set', 'frozenset', 'dict')
+
+
+def _inner(kind, data):
+    """one planted assignment: any container that answers `literal in assignment`"""
+    if kind in ('list', 'tuple'):
+        return _as(kind, data)
+    if kind == 'set':
+        return set(data)
+    if kind == 'frozenset':
+        return frozenset(data)
+    return {l: ['value of', l] for l in data}
+
+
+def _outer(kind, rows):
+    if kind == 'dict':                  # iterating a dictionary hands out its keys: the assignments are the (hashable) keys
+        return {(r if isinstance(r, (tuple, frozenset)) else tuple(r)): ['note', i] for i, r in enumerate(rows)}
+    return _as(kind, rows)
 
 
 def run_lists(case):
@@ -1040,19 +1181,31 @@ def run_lists(case):
         if what == 'charges':
             G = sn.build_graph('simple', case['G'])
             SG = sn.snap_graph(G)
-            charges = keep('charges', _as(kind, [bool(c) if case['bools'] else c for c in case['data']]))
+            conv = CHARGE_VALUES[case.get('values', 'bool' if case.get('bools') else 'int')]
+            charges = keep('charges', _as(kind, [conv(c) for c in case['data']]))
+            labels.append('charges-' + case.get('values', 'bool' if case.get('bools') else 'int'))
+            if case['G'].get('nx') is not None:
+                labels.append('charges-nx-foreign')
             cnfgen.TseitinFormula(G, charges, formula_class=_cls(case['cls']))
             if sn.snap_graph(G) != SG:
-                raise Violation("TseitinFormula modified its graph")
+                raise Violation("TseitinFormula modified its graph: {}".format("; ".join(sn.differences(SG, sn.snap_graph(G)))))
             n = case['G']['n']
             labels.append('charges-short' if len(charges) < n else ('charges-long' if len(charges) > n else 'charges-exact'))
         elif what == 'pattern':
-            pattern = keep('pattern', list(case['data']))
-            bipartite_shift(case['N'], case['M'], pattern)
+            pattern = keep('pattern', _as(kind, case['data']))
+            B = bipartite_shift(case['N'], case['M'], pattern)
+            B.name = 'renamed afterwards'
+            if case['M'] >= 2:
+                B.add_edge(1, 1)
+                B.add_edge(1, 2)
             if pattern != sorted(pattern):
                 labels.append('pattern-unsorted')
         elif what in ('planted-kcnf', 'planted-kxor'):
-            planted = keep('planted_assignments', _as(case['outer'], [_as(kind, a) for a in case['data']]))
+            inner = case.get('inner', kind)
+            if case['outer'] == 'dict' and inner not in ('tuple', 'frozenset'):
+                inner = 'tuple'                       # keys of a dictionary
+            planted = keep('planted_assignments', _outer(case['outer'], [_inner(inner, a) for a in case['data']]))
+            labels += ['planted-inner-' + inner, 'planted-outer-' + case['outer']]
             f = cnfgen.RandomKCNF if what == 'planted-kcnf' else cnfgen.RandomKXOR
             f(case['k'], case['n'], case['m'], seed=case['rseed'], planted_assignments=planted, formula_class=_cls(case['cls']))
             if planted:
@@ -1078,6 +1231,62 @@ def run_lists(case):
         elif what == 'vdw':
             ks = keep('ks', _as(kind, case['data']))
             cnfgen.VanDerWaerden(case['N'], *ks, formula_class=_cls(case['cls']))
+        elif what == 'edges':
+            # a nested list/tuple of pairs handed to a graph object of the package
+            from cnfgen.graphs import Graph, DirectedGraph, BipartiteGraph
+            G = {'simple': Graph, 'digraph': DirectedGraph}[case['gkind']](case['n']) if case['gkind'] != 'bipartite' \
+                else BipartiteGraph(case['n'], case['n'])
+            pairs = keep('edges', _as(case['outer'], [_as(kind, e) for e in case['data']]))
+            G.add_edges_from(pairs)
+            for e in pairs:
+                G.has_edge(*e)
+            list(G.edges())
+            check_watch(watch, "{}.add_edges_from({})".format(type(G).__name__, case['data']))
+            SG = sn.snap_graph(G)
+            # the other direction: the caller's pairs are his
+            changed = False
+            for e in pairs:
+                if isinstance(e, list):
+                    e[0], e[1] = e[1] + 1, e[0] + 1
+                    e.append(0)
+                    changed = True
+            if isinstance(pairs, list):
+                pairs.append([1, 1])
+                changed = True
+            if changed:
+                if sn.snap_graph(G) != SG:
+                    raise Violation("{} object changed when the caller modified the list of pairs he had passed to add_edges_from: {}".format(
+                        type(G).__name__, "; ".join(sn.differences(SG, sn.snap_graph(G)))))
+                watch.pop()                   # the argument was changed by the harness from here on
+                labels.append('caller-pairs-modified')
+            labels.append('edges-' + case['gkind'])
+        elif what == 'opb-constraints':
+            from cnfgen.formula.opb import OPB
+            F = OPB()
+            F.update_variable_number(7)
+            rows = []
+            for terms, op, const in case['data']:
+                row = [_as(kind, t) for t in terms] + [op, const]
+                rows.append(row)                 # documented as a list: pairs, then relation and constant
+            arg = keep('constraints', _as(case['outer'], rows))
+            F.add_constraints_from(arg, check=case['check'])
+            check_watch(watch, "OPB.add_constraints_from({}, check={})".format(case['data'], case['check']))
+            SF = sn.snap_formula(F)
+            changed = False
+            for row in rows:
+                for t in row[:-2]:
+                    if isinstance(t, list):
+                        t[0] += 1
+                        changed = True
+                if isinstance(row, list):
+                    row[-1] = 77
+                    changed = True
+            if changed:
+                if sn.snap_formula(F) != SF:
+                    raise Violation("OPB formula changed when the caller modified the constraints he had passed to add_constraints_from: {}".format(
+                        "; ".join(sn.differences(SF, sn.snap_formula(F)))))
+                watch.pop()
+                labels.append('caller-constraints-modified')
         else:
             raise RuntimeError("harness: " + what)
     except ValueError:
@@ -1093,6 +1302,11 @@ def run_lists(case):
 
 
 _OFFS = st.lists(st.integers(-3, 9), max_size=5)
+_CHARGE_VALUES = st.sampled_from(sorted(CHARGE_VALUES))
+_INNER = st.sampled_from(INNER_KINDS)
+_GKIND = st.sampled_from(['simple', 'digraph', 'bipartite'])
+_PAIRS = st.lists(st.tuples(st.integers(1, 5), st.integers(1, 5)), max_size=6)
+_OPB_ROWS = st.lists(st.tuples(_TERMS, _IN_OPS, st.integers(-5, 9)), max_size=4)
 _WHAT = st.sampled_from(LIST_WHATS)
 
 
@@ -1105,11 +1319,13 @@ def strat_lists(draw):
         g['as'] = draw(_AS)
         if g['as'] == 'networkx':
             g['labels'] = draw(_STYLE)
+            if draw(_BOOL):
+                g['nx'] = draw_nx(draw)
+                g['labels'] = g['nx']['labels']
         case['G'] = g
         case['data'] = draw(st.lists(st.integers(0, 3), max_size=7))
-        case['bools'] = draw(_BOOL)
+        case['values'] = draw(_CHARGE_VALUES)
     elif what == 'pattern':
-        case['container'] = 'list'
         case['N'] = draw(st.integers(1, 5))
         case['M'] = draw(st.integers(1, 6))
         case['data'] = draw(_OFFS)
@@ -1126,6 +1342,9 @@ def strat_lists(draw):
                 a = a[:draw(st.integers(1, n))]                       # partial assignment
             data.append(a)
         case['data'] = data
+        case['inner'] = draw(_INNER)
+        if draw(_ONE_IN_3):
+            case['outer'] = 'dict'
         case['maybe_invalid'] = True                                  # not enough clauses/parities left
     elif what == 'shuffle':
         n = draw(st.integers(0, 5))
@@ -1148,6 +1367,17 @@ def strat_lists(draw):
         data = draw(st.lists(st.integers(0, 3), min_size=1, max_size=3))
         case['data'] = data
         case['label'] = 'r_{{' + ','.join(['{}'] * len(data)) + '}}'
+    elif what == 'edges':
+        n = draw(st.integers(2, 5))
+        gkind = draw(_GKIND)
+        pairs = [((u - 1) % n + 1, (v - 1) % n + 1) for u, v in draw(_PAIRS)]
+        if gkind != 'bipartite':
+            pairs = [p for p in pairs if p[0] != p[1]]
+        case.update(n=n, gkind=gkind, data=[list(p) for p in pairs], outer=draw(_KIND))
+    elif what == 'opb-constraints':
+        rows = draw(_OPB_ROWS)
+        case['data'] = [[[list(t) for t in terms], op, const] for terms, op, const in rows]
+        case.update(outer=draw(_KIND), check=draw(_BOOL))
     else:
         case['N'] = draw(st.integers(0, 7))
         case['data'] = draw(st.lists(st.integers(1, 4), min_size=2, max_size=4))
@@ -1163,14 +1393,19 @@ SUBCHECKS = [
              required_labels=['none', 'shuffle', 'flip', 'xor', 'lift', 'ite', 'xorcomp', 'majcomp', 'dimacs', 'opb', 'chain>=3',
                               'library-compared', 'chain1', 'chain2']),
     SubCheck('graphs', run_graphs, strategy=strat_graphs, enumerate_cases=enum_graphs, quick=4000, thorough=200000,
-             rule="every public family/transformation with a graph parameter (checked by introspection against the model table and the catalogue) and the four graph-based variable group constructors x cnfgen objects and networkx objects (int, shifted int, string and digit-string labels; node, edge and graph attributes) x CNF/OPB; graphs with 0..5 vertices incl. empty and edgeless; oracle: deep snapshot of each graph argument identical after the call, also when the call ends in ValueError; non-trivial: >=2 edges and not rejected",
-             required_labels=sorted(GRAPH_CALLS) + ['cnfgen', 'networkx', 'CNF', 'OPB', 'rejected'] + ['nx-' + s for s in sn.LABEL_STYLES]),
+             rule="every public family/transformation with a graph parameter (checked by introspection against the model table and the catalogue), the four graph-based variable group constructors and the graph builders (from_networkx / normalize of Graph, DirectedGraph, BipartiteGraph; normalize_networkx_labels; to_networkx) x cnfgen objects and networkx objects x CNF/OPB; graphs with 0..5 vertices incl. empty and edgeless. A networkx argument is generated along every aspect its owner can observe (enumerated one value at a time from two base objects for every call, and drawn freely): 'bipartite' sides spelled as int / '0','1' strings / bool / mixed per node; nodes and edges inserted in natural / reversed / shuffled / interleaved order with either endpoint first; class Graph|DiGraph, a user subclass with an instance attribute, a multigraph with a parallel edge, a frozen graph; labels int, shifted int, strings, digit strings, tuples, mixed int/str (unsortable), negative ints; no / flat / nested attributes on nodes, edges and graph (lists, dicts, tuples, None, floats, non-string keys, a 'bipartite' key where the library does not look for it, the side not the first key); name set / absent / empty. Oracle: deep type-aware snapshot (class, node order, attribute dictionaries key by key in order with value types, edge order and keys, adjacency and predecessor order, graph attributes, frozen flag, instance attributes) identical after the call, also when the call ends in ValueError, and still identical after the returned graph object has been renamed / grown / re-attributed by the caller; a builder never returns its networkx argument; non-trivial: >=2 edges and not rejected",
+             required_labels=sorted(GRAPH_CALLS) + ['cnfgen', 'networkx', 'CNF', 'OPB', 'rejected', 'nx-foreign', 'result-changed', 'returned-as-is'] +
+             ['nx-' + s for s in sn.NX_LABELS] +
+             ['nx-{}-{}'.format(d, v) for d, vs in sn.NX_DIMENSIONS if d != 'labels' for v in vs]),
     SubCheck('builders', run_builders, strategy=strat_builders, enumerate_cases=enum_builders, quick=3000, thorough=150000,
              rule="all sign patterns of 0..3 (thorough 0..5) literals x every builder of CNF and OPB (add_linear with six operators, cardinality_*, majorities, add_parity, add_clause) x constant -1..L+1 x list/tuple x check, enumerated; Hypothesis adds repeated literals, add_clauses_from/constructor with nested lists, OPB.add_constraint, invalid literals (ValueError expected); oracle: argument element-wise and type-wise identical after the call, earlier constraints intact, modifying the caller's list or an indexed clause afterwards leaves the formula intact; non-trivial: >=2 literals",
              required_labels=B_METHODS + ['CNF', 'OPB', 'list', 'tuple', 'op!=', 'op<', 'op>', 'op==', 'op<=', 'op>=',
                                           'caller-list-modified', 'indexed-access', 'rejected', 'repeated-literal', 'empty']),
     SubCheck('lists', run_lists, strategy=strat_lists, quick=4000, thorough=150000,
-             rule="charges of TseitinFormula (short/exact/long, ints and bools, list/tuple, cnfgen and networkx graph), pattern of bipartite_shift (unsorted, repeated, negative offsets), planted assignments of RandomKCNF/RandomKXOR (nested lists/tuples), explicit flips/permutations of Shuffle (valid and invalid), ranges of new_block, lengths of VanDerWaerden; oracle: argument deep-identical after the call, also after a ValueError; non-trivial: >=2 elements and not rejected",
+             rule="charges of TseitinFormula (short/exact/long; ints, bools, floats, integers beyond 64 bits, mixed; list/tuple; cnfgen graph and networkx graph incl. the foreign-object dimensions of the `graphs` sub-check), pattern of bipartite_shift (list/tuple; unsorted, repeated, negative offsets; the returned graph is changed afterwards), planted assignments of RandomKCNF/RandomKXOR (outer list/tuple/dict-with-assignments-as-keys x inner list/tuple/set/frozenset/dict keyed by literal with list values), explicit flips/permutations of Shuffle (valid and invalid), ranges of new_block, lengths of VanDerWaerden, nested pair lists of add_edges_from on Graph/DirectedGraph/BipartiteGraph (list/tuple x list/tuple) and nested constraint lists of OPB.add_constraints_from (list/tuple of constraint lists of list/tuple pairs); oracle: argument deep-identical (element values, element types, container types, dictionary order) after the call, also after a ValueError, and for the two nested kinds the graph/formula is unchanged when the caller rewrites his inner lists afterwards; non-trivial: >=2 elements and not rejected",
              required_labels=LIST_WHATS + ['list', 'tuple', 'pattern-unsorted', 'planted-nonempty', 'charges-short', 'charges-long',
-                                           'charges-exact', 'rejected']),
+                                           'charges-exact', 'rejected', 'charges-nx-foreign', 'caller-pairs-modified',
+                                           'caller-constraints-modified', 'planted-outer-dict', 'edges-simple', 'edges-digraph',
+                                           'edges-bipartite'] + ['charges-' + v for v in sorted(CHARGE_VALUES)] +
+             ['planted-inner-' + k for k in INNER_KINDS]),
 ]
